@@ -50,3 +50,17 @@ package kapacitor
 //@     modifies elems(q.data)
 //@     invariant q.head <= i && i <= q.tail && 0 <= ni && i - q.head == n - ni
 //@     invariant forall k int :: 0 <= k && k < len(q.data) && (k < q.head || k >= i) ==> q.data[k] == old(q.data[k])
+
+// ---------------------------------------------------------------- batch.go, query.go (C16)
+
+// "ticks follow every(), aligned when requested": the next tick after `now` is now+every, or,
+// aligned, the least multiple of every strictly greater than now -- which is what the live
+// aligned ticker produces (now.Truncate(every).Add(every)), so that the historical query list
+// equals the live one.
+//@ func (*timeTicker).Next
+//@   props C16
+//@   requires t.every > 0 && now >= 0
+//@   pure
+//@   ensures !t.align ==> result == now + time.Time(t.every)
+//@   ensures t.align ==> result == now - emod(now, time.Time(t.every)) + time.Time(t.every)
+//@   ensures result > now
